@@ -36,6 +36,19 @@ type BatchOpt struct {
 	// Shifts (C07): the k values for this batch instead of the job's (quick tier: families of many tiny modules whose point
 	// is the bounds check of the unshifted text get one shift instead of four)
 	Shifts []int `json:"shifts,omitempty"`
+	// Modes (C07, round 3): the batch is additionally linted through every way a module reaches the linter (modes.go):
+	// files on disk (a directory argument and InputFromPaths), InputFromMap, InputFromText and stdin ("-", a process of
+	// its own whose standard input is the module), for k = 0 and every shift; the reports must agree with each other
+	// and every one of them must lie inside the text that was provided. Stdin: this many modules of the batch.
+	Modes      bool `json:"modes,omitempty"`
+	ModesStdin int  `json:"modes_stdin,omitempty"`
+	ModesKs    int  `json:"modes_ks,omitempty"` // how many of the shifts (besides k = 0) the disk / map modes take, rotating with the batch (0 = all)
+	// Disk (C03, round 3): the modules are written to a tree on disk, one directory per entry of Roots (module names
+	// start with the root), each root configured with its Rego version (0 / 1); the tree is read with
+	// rules.InputFromPaths DiskRounds times and linted through WithInputPaths (disk.go)
+	Disk       bool           `json:"disk,omitempty"`
+	Roots      map[string]int `json:"roots,omitempty"`
+	DiskRounds int            `json:"disk_rounds,omitempty"`
 }
 
 type Job struct {
@@ -76,6 +89,9 @@ type BatchResult struct {
 	ShiftIssues []ShiftFinding `json:"shift_issues,omitempty"`
 	ShiftPairs  int            `json:"shift_pairs"` // (violation, k) pairs compared
 	ShiftSkips  []string       `json:"shift_skips,omitempty"`
+	ModeIssues  []ModeFinding  `json:"mode_issues,omitempty"`
+	ModePairs   map[string]int `json:"mode_pairs,omitempty"` // input mode -> (module, k) pairs linted through it
+	DiskRounds  int            `json:"disk_rounds,omitempty"`
 	Crash       string         `json:"crash,omitempty"` // filled by the master
 	Large       bool           `json:"large,omitempty"` // a large single-call run (its modules are partly those of ordinary batches)
 }
@@ -106,6 +122,8 @@ func RunWorker(jobPath, outPath string) {
 		panic(err)
 	}
 	defer f.Close()
+	workDir = filepath.Dir(outPath)
+	selfExe = os.Args[0]
 	var mu sync.Mutex
 	emit := func(r BatchResult) {
 		b, _ := json.Marshal(r)
@@ -222,6 +240,12 @@ func runBatch(idx int, mods []Module, job *Job) BatchResult {
 		default:
 			res.Unparsed = append(res.Unparsed, m.Src)
 		}
+	}
+	if opt := job.opt(idx); opt.Disk {
+		res = BatchResult{Batch: idx, N: len(mods), ByRule: map[string]int{}, Large: opt.Large}
+		runDisk(&res, idx, mods, opt, timeout)
+		res.Millis = time.Since(t0).Milliseconds()
+		return res
 	}
 	if opt := job.opt(idx); opt.Large || len(opt.RuleSets) > 0 {
 		runLarge(&res, parsed, opt, timeout)
@@ -421,6 +445,9 @@ func runBatch(idx int, mods []Module, job *Job) BatchResult {
 				}
 			}
 		}
+	}
+	if opt := job.opt(idx); opt.Modes && out.Report != nil && job.Locate {
+		runModes(&res, idx, parsed, out.Report, job.Shifts, opt, timeout, job.Detail)
 	}
 	res.Millis = time.Since(t0).Milliseconds()
 	return res
@@ -903,6 +930,14 @@ type Plan struct {
 	LargeSets    int // rule subsets per large batch (one Lint call each, after the all-rules call)
 	LargeRounds  int
 	LargeOnly    bool // only the large batches (the -race pass of the thorough tier)
+	// round 3
+	BoundaryThird  int  // -1: every (head, tail) pair of the boundary-rows family; 0..2: that third of them
+	BoundarySample int  // cap on the boundary-rows family (0 = all of the variant chosen by Deep)
+	Modes          bool // C07: the boundary-rows batches and one batch sampled from the other corpora go through every input mode
+	ModesStdin     int  // modules per such batch that are also linted through stdin
+	ModesKs        int  // shifts per such batch in the disk / map modes (0 = all)
+	DiskPerRoot    int  // C03: files per root of the mixed-version tree on disk (0 = no such run)
+	DiskRounds     int
 }
 
 type Assembled struct {
@@ -1007,6 +1042,23 @@ func Assemble(r *hutil.Rng, p Plan) Assembled {
 		a.Batches = append(a.Batches, b)
 		a.Opts = append(a.Opts, BatchOpt{Shifts: p.BreakShifts})
 	}
+	// something reportable on the first row and on the last row of the file (gen_boundary.go): never sampled in the quick
+	// tier; C07 sends these batches through every input mode
+	bnd := BoundaryRowModules(p.Deep, p.BoundaryThird)
+	if p.BoundarySample > 0 && p.BoundarySample < len(bnd) {
+		r2 := hutil.NewRng(uint64(len(bnd))*7919 + hutil.SeedFromEnv()) // a generator of its own: the sequence of `r` is not disturbed
+		hutil.Shuffle(r2, bnd)
+		bnd = bnd[:p.BoundarySample]
+		sort.Slice(bnd, func(i, j int) bool { return bnd[i].Name < bnd[j].Name })
+	}
+	a.Counts["boundary_rows"] = len(bnd)
+	for _, b := range batchUp(bnd, p.BatchSize) {
+		for len(a.Opts) < len(a.Batches) {
+			a.Opts = append(a.Opts, BatchOpt{})
+		}
+		a.Batches = append(a.Batches, b)
+		a.Opts = append(a.Opts, BatchOpt{Modes: p.Modes, ModesStdin: p.ModesStdin, ModesKs: p.ModesKs})
+	}
 	gen := GenModules(r, p.GenN)
 	a.Counts["gen"] = len(gen)
 	a.Batches = append(a.Batches, batchUp(gen, p.BatchSize)...)
@@ -1023,6 +1075,27 @@ func Assemble(r *hutil.Rng, p Plan) Assembled {
 		a.Batches = append(a.Batches, []Module{all[r.Below(len(all))]})
 		a.Counts["single_file_runs"]++
 	}
+	if p.Modes {
+		// one batch drawn from the other corpora through every input mode (a generator of its own)
+		r2 := hutil.NewRng(hutil.SeedFromEnv() ^ 0xC0706)
+		var pick []Module
+		names := map[string]bool{}
+		for tries := 0; len(pick) < p.BatchSize && tries < 20*p.BatchSize && len(all) > 0; tries++ {
+			m := all[r2.Below(len(all))]
+			if !names[m.Name] && len(m.Text) < 4000 && ConfiguredVersion(m.Name) == "" {
+				names[m.Name] = true
+				pick = append(pick, m)
+			}
+		}
+		if len(pick) > 0 {
+			for len(a.Opts) < len(a.Batches) {
+				a.Opts = append(a.Opts, BatchOpt{})
+			}
+			a.Batches = append(a.Batches, pick)
+			a.Opts = append(a.Opts, BatchOpt{Modes: true, ModesStdin: p.ModesStdin, ModesKs: p.ModesKs})
+			a.Counts["input_modes_sample"] = len(pick)
+		}
+	}
 	if p.Large > 0 {
 		// large single-call runs (large.go); drawn last from the generator so that they do not disturb the sequence above
 		// pool: the generated corpora (the stress shapes and mutations hold the numbers of the known float64 finding, which
@@ -1038,6 +1111,14 @@ func Assemble(r *hutil.Rng, p Plan) Assembled {
 		}
 		a.Batches = append(a.Batches, lb...)
 		a.Opts = append(a.Opts, lo...)
+		if p.DiskPerRoot > 0 {
+			// the same through the disk path with a mixed-version configuration (disk.go)
+			dm, do := DiskBatch(r, 0, p.DiskPerRoot, p.DiskRounds, ruleSubsets(r, AllRuleNames(), 2))
+			a.Batches = append(a.Batches, dm)
+			a.Opts = append(a.Opts, do)
+			a.Counts["disk_mixed_version_files"] = len(dm)
+			a.Counts["disk_read_rounds"] = p.DiskRounds
+		}
 		a.Counts["large_batches"] = len(lb)
 		for _, b := range lb {
 			a.Counts["large_modules"] += len(b)
